@@ -96,6 +96,12 @@ func (e *Env) evalLoc(x ast.Expr) []locRef {
 		case "held":
 			m := e.eval(n.Args[0]).V.(*Term)
 			return []locRef{{"G|held", ArrayS(IntS, BoolS), m}}
+		case "cancelled":
+			c, ok := e.eval(n.Args[0]).V.(IfaceV)
+			if !ok {
+				evalFail("cancelled() location expects a context")
+			}
+			return []locRef{{"G|cancelled", ArrayS(IntS, BoolS), c.Val}}
 		case "ghost":
 			// ghost("name"): a whole ghost array
 			lit := n.Args[0].(*ast.BasicLit)
@@ -205,7 +211,63 @@ func (x *Exec) fnTerm(st *State, v Value) Value {
 	if len(cv.Bind) == 0 {
 		st.assume(Le(IntLit(1), t))
 	}
+	if returnsOnlyNil(cv.Fn) {
+		st.assume(App("noopfn", BoolS, t))
+	}
 	return t
+}
+
+// returnsOnlyNil: a function literal that does nothing but return nil/zero constants (decided syntactically on its SSA).
+func returnsOnlyNil(fn *ssa.Function) bool {
+	if fn.Blocks == nil {
+		return false
+	}
+	for _, b := range fn.Blocks {
+		for _, in := range b.Instrs {
+			switch n := in.(type) {
+			case *ssa.Alloc, *ssa.DebugRef, *ssa.RunDefers, *ssa.Jump, *ssa.UnOp:
+			case *ssa.Store:
+				if _, ok := n.Addr.(*ssa.Alloc); !ok {
+					return false
+				}
+			case *ssa.Call:
+				if b, ok := n.Common().Value.(*ssa.Builtin); !ok || b.Name() != "ssa:deferstack" {
+					return false
+				}
+			case *ssa.Return:
+				for _, r := range n.Results {
+					if u, ok := r.(*ssa.UnOp); ok {
+						_ = u
+						continue
+					}
+					c, ok := r.(*ssa.Const)
+					if !ok || (c.Value != nil) {
+						return false
+					}
+				}
+			default:
+				return false
+			}
+		}
+	}
+	// every store to the result cells must store a nil constant or a parameter-independent zero
+	for _, b := range fn.Blocks {
+		for _, in := range b.Instrs {
+			if st, ok := in.(*ssa.Store); ok {
+				if a, ok := st.Addr.(*ssa.Alloc); ok && a.Comment == "" {
+					c, ok := st.Val.(*ssa.Const)
+					if !ok || c.Value != nil {
+						// unnamed result cell receives a non-nil value
+						if _, isParam := st.Val.(*ssa.Parameter); !isParam {
+							return false
+						}
+						return false
+					}
+				}
+			}
+		}
+	}
+	return true
 }
 
 func (x *Exec) contractEnv(st *State, c *Contract, sig *types.Signature, all []Value) *Env {
@@ -453,6 +515,11 @@ func (x *Exec) doCall(fr *Frame, st *State, call *ssa.Call, cc *ssa.CallCommon, 
 			return
 		}
 		x.check(st, x.site(fr, site, "nilderef"), Neq(f, IntLit(0)), site.Pos())
+		if isNamed(types.Unalias(cc.Value.Type()), "context", "CancelFunc") || (f.Op == "app" && f.Name == "cancelfn") {
+			x.callCancel(st, f)
+			k(st, nil)
+			return
+		}
 		x.trusted("function-typed parameters (e.g. getVolumeName) are called as pure, total functions of their arguments")
 		k(st, fnApply(sig, f, args))
 		return
@@ -614,6 +681,8 @@ func (x *Exec) copyElems(st *State, dst, src SliceV, n *Term) {
 }
 
 // appendSlices implements append(s, t...) including in-place growth within capacity.
+// For a short literal-length argument (append(s, x)) the two cases are explored as separate paths with
+// plain stores; otherwise the combined lambda encoding is used.
 func (x *Exec) appendSlices(st *State, s, t SliceV) Value {
 	newLen := Add(s.Len, t.Len)
 	fits := Le(newLen, s.Cap)
@@ -626,15 +695,30 @@ func (x *Exec) appendSlices(st *State, s, t SliceV) Value {
 		a := st.arr(name, as)
 		s0 := Select(a, s.Ref)
 		t0 := Select(a, t.Ref)
-		i := Var(freshName("ai"), IntS)
-		// in place: s0 with [off+len, off+len+tlen) := t
-		inPlace := Lambda([]*Term{i}, Ite(And(Le(Add(s.Off, s.Len), i), Lt(i, Add(s.Off, newLen))), Select(t0, Add(Sub(i, Add(s.Off, s.Len)), t.Off)), Select(s0, i)))
-		j := Var(freshName("aj"), IntS)
-		// fresh array: [0,len) := s, [len, len+tlen) := t, rest zero
-		grown := Lambda([]*Term{j}, Ite(And(Le(IntLit(0), j), Lt(j, s.Len)), Select(s0, Add(s.Off, j)),
-			Ite(And(Le(s.Len, j), Lt(j, newLen)), Select(t0, Add(Sub(j, s.Len), t.Off)), zeroTerm(c))))
+		var inPlace, grown *Term
+		if t.Len.IsInt() && t.Len.Int.Int64() <= 4 {
+			n := int(t.Len.Int.Int64())
+			inPlace = s0
+			// grown: a fresh array that agrees with s on [0, len) (quantified), then the new elements
+			g := Const(freshName("grown"+c.suffix), ArrayS(IntS, c.sort))
+			j := Var(freshName("aj"), IntS)
+			q := Forall([]*Term{j}, Implies(And(Le(IntLit(0), j), Lt(j, s.Len)), Eq(Select(g, j), Select(s0, Add(s.Off, j)))))
+			q.Pat = []*Term{Select(g, j)}
+			st.assume(q)
+			grown = g
+			for k := 0; k < n; k++ {
+				el := Select(t0, Add(t.Off, IntLit(int64(k))))
+				inPlace = Store(inPlace, Add(Add(s.Off, s.Len), IntLit(int64(k))), el)
+				grown = Store(grown, Add(s.Len, IntLit(int64(k))), el)
+			}
+		} else {
+			i := Var(freshName("ai"), IntS)
+			inPlace = Lambda([]*Term{i}, Ite(And(Le(Add(s.Off, s.Len), i), Lt(i, Add(s.Off, newLen))), Select(t0, Add(Sub(i, Add(s.Off, s.Len)), t.Off)), Select(s0, i)))
+			j := Var(freshName("aj"), IntS)
+			grown = Lambda([]*Term{j}, Ite(And(Le(IntLit(0), j), Lt(j, s.Len)), Select(s0, Add(s.Off, j)),
+				Ite(And(Le(s.Len, j), Lt(j, newLen)), Select(t0, Add(Sub(j, s.Len), t.Off)), zeroTerm(c))))
+		}
 		upd := Store(Store(a, fresh, grown), s.Ref, Ite(fits, inPlace, s0))
-		// when it fits the fresh object is untouched garbage; harmless
 		st.setArr(name, upd)
 	}
 	return SliceV{
@@ -762,6 +846,32 @@ func (x *Exec) knownPtr(fr *Frame, v ssa.Value) (*Term, bool) {
 	return nil, false
 }
 
+// stableSliceRef: v is a load of a local slice variable that is not assigned inside body; returns its backing reference.
+func (x *Exec) stableSliceRef(fr *Frame, st *State, v ssa.Value, body map[*ssa.BasicBlock]bool) (*Term, bool) {
+	u, ok := v.(*ssa.UnOp)
+	if !ok {
+		return nil, false
+	}
+	al, ok := u.X.(*ssa.Alloc)
+	if !ok || al.Referrers() == nil {
+		return nil, false
+	}
+	for _, r := range *al.Referrers() {
+		if s, ok := r.(*ssa.Store); ok && s.Addr == ssa.Value(al) && body[s.Block()] {
+			return nil, false
+		}
+	}
+	cp, ok := fr.regs[al].(CellPtr)
+	if !ok || len(cp.Path) != 0 {
+		return nil, false
+	}
+	sv, ok := st.cells[cp.C].(SliceV)
+	if !ok || sv.Ref.Op == "ite" {
+		return nil, false
+	}
+	return sv.Ref, true
+}
+
 // loopWrites2 additionally reports single cells (points) written through known addresses.
 func (x *Exec) loopWrites2(fr *Frame, st *State, body map[*ssa.BasicBlock]bool) (cells []*Cell, arrays map[string]*Sort, points []locRef) {
 	arrays = map[string]*Sort{}
@@ -833,6 +943,13 @@ func (x *Exec) loopWrites2(fr *Frame, st *State, body map[*ssa.BasicBlock]bool) 
 						addType(func(sfx string) string { return fieldArrName(owner, fn, sfx) }, f.Type(), false)
 					}
 				case *ssa.IndexAddr:
+					// a slice held in a local that the loop never reassigns: only that backing array changes
+					if ref, ok := x.stableSliceRef(fr, st, a.X, body); ok {
+						for _, c := range comps(pt) {
+							points = append(points, locRef{elemArrName(pt, c.suffix), ArrayS(IntS, ArrayS(IntS, c.sort)), ref})
+						}
+						continue
+					}
 					addType(func(sfx string) string { return elemArrName(pt, sfx) }, pt, true)
 				default:
 					if isPlainStruct(pt) {
@@ -990,6 +1107,17 @@ func (x *Exec) loopRule(fr *Frame, hdr *ssa.BasicBlock, ord int, back bool, st *
 		x.runBlock(fr, hdr, 0, st, k)
 		return
 	}
+	// map iterators advanced inside this loop
+	var iters []MapIterV
+	for b := range body {
+		for _, in := range b.Instrs {
+			if nx, ok := in.(*ssa.Next); ok {
+				if it, ok := fr.regs[nx.Iter].(MapIterV); ok {
+					iters = append(iters, it)
+				}
+			}
+		}
+	}
 	mkEnv := func() *Env {
 		env := &Env{eng: x.eng, st: st, vars: map[string]tv{}, pkg: fr.fn.Pkg.Pkg, old: heapSnap{}, oldTop: st.top0}
 		if !fr.inl {
@@ -998,6 +1126,9 @@ func (x *Exec) loopRule(fr *Frame, hdr *ssa.BasicBlock, ord int, back bool, st *
 			}
 		}
 		x.localsEnv(fr, st, env, body)
+		if len(iters) == 1 {
+			env.vars["visited"] = tv{setV{Dom: st.ghostV[iters[0].Key].(*Term), KeyT: iters[0].MT.Key()}, nil}
+		}
 		return env
 	}
 	evalInv := func(env *Env, cl Clause) *Term {
@@ -1028,10 +1159,11 @@ func (x *Exec) loopRule(fr *Frame, hdr *ssa.BasicBlock, ord int, back bool, st *
 		x.check(st, fmt.Sprintf("%sinv.%d.entry.%s", fr.prefix, ord, cl.Label), evalInv(env, cl), pos)
 	}
 	// havoc everything the body may assign
-	cells, arrays := x.loopWrites(fr, st, body)
+	cells, arrays, points := x.loopWrites2(fr, st, body)
 	for _, cell := range cells {
 		st.cells[cell] = st.fresh(cell.T, "loop|"+cell.name)
 	}
+	x.havoc(st, points)
 	names := make([]string, 0, len(arrays))
 	for n := range arrays {
 		names = append(names, n)
@@ -1041,10 +1173,18 @@ func (x *Exec) loopRule(fr *Frame, hdr *ssa.BasicBlock, ord int, back bool, st *
 		st.heap[n] = Const(freshName(n), arrays[n])
 		x.pendingTop = append(x.pendingTop, st.heap[n].Name)
 	}
-	if len(names) > 0 {
+	if len(names) > 0 || len(points) > 0 {
 		st.bumpTop()
 	}
 	x.flushTop(st)
+	for _, it := range iters {
+		ks, _ := scalarSort(it.MT.Key())
+		V := Const(freshName("visited"), ArrayS(ks, BoolS))
+		dom := Select(st.arr(mapArrBase(it.MT)+"|dom", ArrayS(IntS, ArrayS(ks, BoolS))), it.Addr)
+		q := Var(freshName("q"), ks)
+		st.assume(Forall([]*Term{q}, Implies(Select(V, q), Select(dom, q))))
+		st.ghostV[it.Key] = V
+	}
 	env = mkEnv()
 	for _, cl := range spec.Inv {
 		st.assume(evalInv(env, cl))
